@@ -1,2 +1,468 @@
-(* proofs for Model/Replay.v — see Properties/C14.v *)
+(* ReplayProofs.v — the ring bitmap of transport/replay.go refines a set of counters.
+   Main results: check_fresh (Check on any state reached by Mark calls = set-based freshness),
+   run_accept_spec (accept histories), no_wrap. *)
 From Hop Require Import Base Replay.
+From Coq Require Import ZifyN ZifyNat ZifyBool.
+Ltac Zify.zify_post_hook ::= Z.div_mod_to_equations.
+Open Scope N_scope.
+
+Arguments N.mul : simpl never.
+Arguments N.add : simpl never.
+Arguments N.pow : simpl never.
+Arguments N.div : simpl never.
+Arguments N.modulo : simpl never.
+Arguments N.shiftl : simpl never.
+Arguments N.shiftr : simpl never.
+Arguments N.land : simpl never.
+Arguments N.lor : simpl never.
+Arguments N.testbit : simpl never.
+
+Definition lim : N := 2 ^ 63.
+
+(* ---------- lists ---------- *)
+Lemma upd_length bl i v : length (upd bl i v) = length bl.
+Proof. revert i; induction bl as [|x r IH]; intros [|i]; simpl; auto. Qed.
+
+Lemma nth_upd bl i v j : (i < length bl)%nat ->
+  nth j (upd bl i v) 0 = if Nat.eqb j i then v else nth j bl 0.
+Proof.
+  revert i j; induction bl as [|x r IH]; intros i j Hi; simpl in Hi; [lia|].
+  destruct i as [|i], j as [|j]; simpl; auto.
+  apply IH; lia.
+Qed.
+
+Lemma get_set bl i v j : (N.to_nat i < length bl)%nat ->
+  get (set bl i v) j = if j =? i then v else get bl j.
+Proof.
+  intros Hi. unfold get, set. rewrite nth_upd by exact Hi.
+  destruct (N.eqb_spec j i) as [->|Hne].
+  - now rewrite Nat.eqb_refl.
+  - destruct (Nat.eqb_spec (N.to_nat j) (N.to_nat i)) as [E|_]; [|reflexivity].
+    apply N2Nat.inj in E. contradiction.
+Qed.
+
+Lemma set_length bl i v : length (set bl i v) = length bl.
+Proof. apply upd_length. Qed.
+
+(* ---------- bits ---------- *)
+Lemma land_pow2 x b : N.land x (2 ^ b) = if N.testbit x b then 2 ^ b else 0.
+Proof.
+  apply N.bits_inj. intros n. rewrite N.land_spec, N.pow2_bits_eqb.
+  destruct (N.testbit x b) eqn:Hb.
+  - rewrite N.pow2_bits_eqb. destruct (N.eqb_spec b n) as [->|_].
+    + now rewrite Hb.
+    + apply andb_false_r.
+  - rewrite N.bits_0. destruct (N.eqb_spec b n) as [->|_].
+    + now rewrite Hb.
+    + apply andb_false_r.
+Qed.
+
+Lemma land_shiftl1_eq0 x b : (N.land x (N.shiftl 1 b) =? 0) = negb (N.testbit x b).
+Proof.
+  rewrite N.shiftl_1_l, land_pow2. destruct (N.testbit x b); simpl.
+  - apply N.eqb_neq. apply N.pow_nonzero. discriminate.
+  - reflexivity.
+Qed.
+
+Lemma lor_shiftl1_bit x b n : N.testbit (N.lor x (N.shiftl 1 b)) n = N.testbit x n || (n =? b).
+Proof.
+  rewrite N.lor_spec, N.shiftl_1_l, N.pow2_bits_eqb. now rewrite N.eqb_sym.
+Qed.
+
+Lemma land63 x : N.land x location_mask = x mod 64.
+Proof. change location_mask with (N.ones 6). now rewrite N.land_ones. Qed.
+
+Lemma land7 x : N.land x index_mask = x mod 8.
+Proof. change index_mask with (N.ones 3). now rewrite N.land_ones. Qed.
+
+Lemma shr6 x : N.shiftr x location_bits = x / 64.
+Proof. unfold location_bits. now rewrite N.shiftr_div_pow2. Qed.
+
+Lemma u64_small a b : a + b < two64 -> u64_add a b = a + b.
+Proof. intros H. unfold u64_add. now apply N.mod_small. Qed.
+
+Lemma two64_val : two64 = 18446744073709551616. Proof. reflexivity. Qed.
+Lemma lim_val : lim = 9223372036854775808. Proof. reflexivity. Qed.
+Lemma window_val : window_size = 448. Proof. reflexivity. Qed.
+
+(* the modelled uint64 wrap is unreachable below 2^63 *)
+Lemma no_wrap seq : seq < lim -> u64_add seq window_size = seq + 448.
+Proof.
+  intros H. rewrite window_val. apply u64_small. rewrite two64_val. rewrite lim_val in H. lia.
+Qed.
+
+(* ---------- set side ---------- *)
+Lemma mem_le_max c M : mem c M = true -> c <= max0 M.
+Proof.
+  induction M as [|x r IH]; simpl; [discriminate|].
+  destruct (N.eqb_spec c x) as [->|_]; simpl; intros H; [lia|].
+  specialize (IH H). lia.
+Qed.
+
+Lemma max0_lt M : Forall (fun x => x < lim) M -> max0 M < lim.
+Proof.
+  induction 1 as [|x r Hx _ IH]; simpl; [rewrite lim_val; lia|]. lia.
+Qed.
+
+(* ---------- the refinement invariant ---------- *)
+Definition bitl (bl : list N) (c : N) : bool :=
+  N.testbit (get bl ((c / 64) mod 8)) (c mod 64).
+Definition bit (s : win) (c : N) : bool := bitl (blocks s) c.
+
+Record Inv (s : win) (M : list N) : Prop := {
+  inv_len : length (blocks s) = 8%nat;
+  inv_wt : wt s = max0 M;
+  inv_bits : forall c, wt s <= c + 448 -> c / 64 <= wt s / 64 -> bit s c = mem c M
+}.
+
+Lemma inv_init : Inv win_init [].
+Proof.
+  split; try reflexivity.
+  intros c _ _. unfold bit, bitl, get. simpl blocks.
+  assert (H : (c / 64) mod 8 < 8) by (apply N.mod_lt; discriminate).
+  destruct (N.to_nat ((c / 64) mod 8)) as [|[|[|[|[|[|[|[|n]]]]]]]] eqn:E; simpl;
+    try apply N.bits_0. destruct n; apply N.bits_0.
+Qed.
+
+Lemma check_spec s c : c < lim -> wt s < lim ->
+  check s c = if wt s <? c then true
+              else if c + 448 <? wt s then false
+              else negb (bit s c).
+Proof.
+  intros Hc Hw. unfold check. rewrite no_wrap by exact Hc.
+  destruct (wt s <? c); [reflexivity|].
+  destruct (c + 448 <? wt s); [reflexivity|].
+  rewrite land_shiftl1_eq0, land63, land7, shr6. reflexivity.
+Qed.
+
+Theorem check_fresh_inv s M c :
+  Inv s M -> Forall (fun x => x < lim) M -> c < lim -> check s c = fresh_b M c.
+Proof.
+  intros [Hl Hw Hb] HM Hc.
+  assert (Hwl : wt s < lim) by (rewrite Hw; now apply max0_lt).
+  rewrite check_spec by assumption. unfold fresh_b. rewrite window_val, <- Hw.
+  destruct (N.ltb_spec (wt s) c) as [H1|H1].
+  - destruct (mem c M) eqn:Hm.
+    + apply mem_le_max in Hm. lia.
+    + simpl. symmetry. apply N.leb_le. lia.
+  - destruct (N.ltb_spec (c + 448) (wt s)) as [H2|H2].
+    + replace (wt s <=? c + 448) with false by (symmetry; apply N.leb_gt; lia).
+      now rewrite andb_false_r.
+    + rewrite Hb; [|lia|].
+      * replace (wt s <=? c + 448) with true by (symmetry; apply N.leb_le; lia).
+        now rewrite andb_true_r.
+      * apply N.div_le_mono; [discriminate|exact H1].
+Qed.
+
+(* ---------- the clearing loop ---------- *)
+Lemma idx_no_wrap i cur : i <= 8 -> cur < 2 ^ 57 ->
+  N.land (u64_add (u64_add i cur) 1) index_mask = (i + cur + 1) mod 8.
+Proof.
+  intros Hi Hc. change (2 ^ 57) with 144115188075855872 in Hc.
+  rewrite land7, !u64_small; rewrite ?two64_val; try lia.
+  rewrite u64_small; rewrite ?two64_val; lia.
+Qed.
+
+Lemma clear_loop_length bl cur i n : length (clear_loop bl cur i n) = length bl.
+Proof.
+  revert bl i; induction n as [|n IH]; intros bl i; simpl; [reflexivity|].
+  now rewrite IH, set_length.
+Qed.
+
+Lemma clear_loop_zero bl cur i n j : length bl = 8%nat -> i + N.of_nat n <= 8 -> cur < 2 ^ 57 ->
+  get bl j = 0 -> get (clear_loop bl cur i n) j = 0.
+Proof.
+  revert bl i; induction n as [|n IH]; intros bl i Hl Hi Hc H0; simpl; [exact H0|].
+  apply IH; [now rewrite set_length|lia|exact Hc|].
+  rewrite idx_no_wrap by lia.
+  rewrite get_set.
+  - destruct (j =? (i + cur + 1) mod 8); [reflexivity|exact H0].
+  - rewrite Hl. assert ((i + cur + 1) mod 8 < 8) by (apply N.mod_lt; discriminate). lia.
+Qed.
+
+Lemma clear_loop_keep bl cur i n j : length bl = 8%nat -> i + N.of_nat n <= 8 -> cur < 2 ^ 57 ->
+  (forall k, i <= k -> k < i + N.of_nat n -> (k + cur + 1) mod 8 <> j) ->
+  get (clear_loop bl cur i n) j = get bl j.
+Proof.
+  revert bl i; induction n as [|n IH]; intros bl i Hl Hi Hc Hk; simpl; [reflexivity|].
+  rewrite IH; [|now rewrite set_length|lia|exact Hc|intros k H1 H2; apply Hk; lia].
+  rewrite idx_no_wrap by lia.
+  rewrite get_set.
+  - destruct (N.eqb_spec j ((i + cur + 1) mod 8)) as [E|_]; [|reflexivity].
+    exfalso. apply (Hk i); [lia|lia|now symmetry].
+  - rewrite Hl. assert ((i + cur + 1) mod 8 < 8) by (apply N.mod_lt; discriminate). lia.
+Qed.
+
+Lemma clear_loop_hit bl cur i n j : length bl = 8%nat -> i + N.of_nat n <= 8 -> cur < 2 ^ 57 ->
+  (exists k, i <= k /\ k < i + N.of_nat n /\ (k + cur + 1) mod 8 = j) ->
+  get (clear_loop bl cur i n) j = 0.
+Proof.
+  revert bl i; induction n as [|n IH]; intros bl i Hl Hi Hc [k (H1 & H2 & H3)]; simpl; [lia|].
+  assert (Hlt : (N.to_nat ((i + cur + 1) mod 8) < length bl)%nat).
+  { rewrite Hl. assert ((i + cur + 1) mod 8 < 8) by (apply N.mod_lt; discriminate). lia. }
+  destruct (N.eq_dec k i) as [->|Hne].
+  - apply clear_loop_zero; [now rewrite set_length|lia|exact Hc|].
+    rewrite idx_no_wrap by lia. rewrite get_set by exact Hlt. now rewrite H3, N.eqb_refl.
+  - apply IH; [now rewrite set_length|lia|exact Hc|].
+    exists k. repeat split; [lia|lia|exact H3].
+Qed.
+
+(* ---------- Mark preserves the invariant ---------- *)
+Lemma bitl_set bl idx v c :
+  length bl = 8%nat -> idx < 8 ->
+  bitl (set bl idx v) c = if (c / 64) mod 8 =? idx then N.testbit v (c mod 64) else bitl bl c.
+Proof.
+  intros Hl Hi. unfold bitl. rewrite get_set by (rewrite Hl; lia).
+  destruct ((c / 64) mod 8 =? idx); reflexivity.
+Qed.
+
+Lemma mark_spec s c : c < lim -> wt s < lim ->
+  mark s c =
+  if c + 448 <? wt s then s
+  else
+    let s1 := if wt s <? c then
+                let diff0 := c / 64 - wt s / 64 in
+                let diff := if 8 <? diff0 then 8 else diff0 in
+                {| blocks := clear_loop (blocks s) (wt s / 64) 0 (N.to_nat diff); wt := c |}
+              else s in
+    {| blocks := set (blocks s1) ((c / 64) mod 8)
+                   (N.lor (get (blocks s1) ((c / 64) mod 8)) (N.shiftl 1 (c mod 64)));
+       wt := wt s1 |}.
+Proof.
+  intros Hc Hw. unfold mark. rewrite no_wrap by exact Hc.
+  destruct (c + 448 <? wt s); [reflexivity|].
+  rewrite !shr6, land7, land63. reflexivity.
+Qed.
+
+Lemma div64_bound x : x < lim -> x / 64 < 2 ^ 57.
+Proof. rewrite lim_val. change (2 ^ 57) with 144115188075855872. lia. Qed.
+
+Theorem mark_inv s M c :
+  Inv s M -> Forall (fun x => x < lim) M -> c < lim -> Inv (mark s c) (c :: M).
+Proof.
+  intros [Hl Hw Hb] HM Hc.
+  assert (Hwl : wt s < lim) by (rewrite Hw; now apply max0_lt).
+  rewrite mark_spec by assumption.
+  destruct (N.ltb_spec (c + 448) (wt s)) as [Hold|Hin].
+  { (* older than the window: ignored *)
+    split; [exact Hl|simpl; lia|].
+    intros c' H1 H2. rewrite Hb by assumption. simpl.
+    destruct (N.eqb_spec c' c) as [->|_]; [lia|reflexivity]. }
+  assert (Hidx : (c / 64) mod 8 < 8) by (apply N.mod_lt; discriminate).
+  unfold bit in Hb.
+  destruct (N.ltb_spec (wt s) c) as [Hnew|Hle]; cbv zeta.
+  - (* the top advances: clear skipped blocks, then set the bit *)
+    remember (wt s / 64) as cur eqn:Ecur. remember (c / 64) as ub eqn:Eub.
+    remember (if 8 <? ub - cur then 8 else ub - cur) as diff eqn:Ediff.
+    assert (Hcur : cur < 2 ^ 57) by (rewrite Ecur; apply div64_bound; exact Hwl).
+    assert (Hd8 : diff <= 8) by (rewrite Ediff; destruct (N.ltb_spec 8 (ub - cur)); lia).
+    assert (Hdu : diff <= ub - cur) by (rewrite Ediff; destruct (N.ltb_spec 8 (ub - cur)); lia).
+    assert (Hcu : cur <= ub) by (rewrite Ecur, Eub; apply N.div_le_mono; [discriminate|lia]).
+    remember (clear_loop (blocks s) cur 0 (N.to_nat diff)) as bl1 eqn:Ebl1.
+    assert (Hl1 : length bl1 = 8%nat) by (rewrite Ebl1; now rewrite clear_loop_length).
+    split; simpl blocks; simpl wt.
+    + now rewrite set_length.
+    + simpl. lia.
+    + intros c' H1 H2. unfold bit. simpl blocks.
+      rewrite (bitl_set bl1 (ub mod 8) _ c' Hl1 Hidx).
+      rewrite lor_shiftl1_bit. rewrite <- Eub in H2.
+      assert (Hj : (c' / 64) mod 8 < 8) by (apply N.mod_lt; discriminate).
+      assert (Hc7 : ub <= c' / 64 + 7) by (rewrite Eub; lia).
+      destruct (N.leb_spec (c' / 64) cur) as [Hlow|Hhigh].
+      * (* block of c' is at or below the old top block: kept, old invariant applies *)
+        assert (Hkeep : get bl1 ((c' / 64) mod 8) = get (blocks s) ((c' / 64) mod 8)).
+        { rewrite Ebl1. apply clear_loop_keep; [exact Hl|lia|exact Hcur|].
+          intros k _ Hk E. rewrite N2Nat.id in Hk. lia. }
+        assert (Hold : bitl (blocks s) c' = mem c' M) by (apply Hb; [lia|exact Hlow]).
+        simpl mem.
+        destruct (N.eqb_spec ((c' / 64) mod 8) (ub mod 8)) as [E|NE].
+        -- unfold bitl in Hold. rewrite <- E, Hkeep, Hold.
+           assert (c' / 64 = ub) by lia.
+           destruct (N.eqb_spec (c' mod 64) (c mod 64)) as [E2|NE2];
+             destruct (N.eqb_spec c' c) as [E3|NE3]; try (rewrite orb_comm; reflexivity).
+           ++ exfalso. apply NE3. lia.
+           ++ exfalso. apply NE2. now rewrite E3.
+        -- unfold bitl in *. rewrite Hkeep, Hold.
+           destruct (N.eqb_spec c' c) as [E3|_]; [exfalso; apply NE; rewrite E3, Eub; reflexivity|reflexivity].
+      * (* block of c' is above the old top block: it was cleared; c' is not in M *)
+        assert (Hm : mem c' M = false).
+        { destruct (mem c' M) eqn:Hm; [|reflexivity]. apply mem_le_max in Hm.
+          rewrite <- Hw in Hm. exfalso. lia. }
+        assert (Hz : get bl1 ((c' / 64) mod 8) = 0).
+        { rewrite Ebl1. apply clear_loop_hit; [exact Hl|lia|exact Hcur|]. rewrite N2Nat.id.
+          destruct (N.ltb_spec 8 (ub - cur)) as [Hbig|Hsmall].
+          - exists ((c' / 64 - cur - 1) mod 8). repeat split; lia.
+          - exists (c' / 64 - cur - 1). repeat split; lia. }
+        simpl mem. rewrite Hm.
+        destruct (N.eqb_spec ((c' / 64) mod 8) (ub mod 8)) as [E|NE].
+        -- rewrite <- E, Hz, N.bits_0. simpl.
+           assert (c' / 64 = ub) by lia.
+           destruct (N.eqb_spec (c' mod 64) (c mod 64)) as [E2|NE2];
+             destruct (N.eqb_spec c' c) as [E3|NE3]; try reflexivity.
+           ++ exfalso. apply NE3. lia.
+           ++ exfalso. apply NE2. now rewrite E3.
+        -- unfold bitl. rewrite Hz, N.bits_0.
+           destruct (N.eqb_spec c' c) as [E3|_]; [exfalso; apply NE; rewrite E3, Eub; reflexivity|reflexivity].
+  - (* inside the window, not above the top: just set the bit *)
+    split; simpl blocks; simpl wt.
+    + now rewrite set_length.
+    + simpl. lia.
+    + intros c' H1 H2. unfold bit. simpl blocks.
+      rewrite (bitl_set (blocks s) ((c / 64) mod 8) _ c' Hl Hidx).
+      rewrite lor_shiftl1_bit.
+      assert (Hold : bitl (blocks s) c' = mem c' M) by (apply Hb; assumption).
+      simpl mem.
+      destruct (N.eqb_spec ((c' / 64) mod 8) ((c / 64) mod 8)) as [E|NE].
+      * unfold bitl in Hold. rewrite <- E, Hold.
+        assert (c / 64 <= wt s / 64) by (apply N.div_le_mono; [discriminate|lia]).
+        assert (c' / 64 = c / 64) by lia.
+        destruct (N.eqb_spec (c' mod 64) (c mod 64)) as [E2|NE2];
+          destruct (N.eqb_spec c' c) as [E3|NE3]; try (rewrite orb_comm; reflexivity).
+        -- exfalso. apply NE3. lia.
+        -- exfalso. apply NE2. now rewrite E3.
+      * rewrite Hold.
+        destruct (N.eqb_spec c' c) as [E3|_]; [exfalso; apply NE; now rewrite E3|reflexivity].
+Qed.
+
+(* ---------- histories ---------- *)
+Lemma marks_inv ms : forall s M, Inv s M -> Forall (fun x => x < lim) M -> Forall (fun x => x < lim) ms ->
+  Inv (fold_left mark ms s) (rev ms ++ M).
+Proof.
+  induction ms as [|c r IH]; intros s M HI HM Hms; simpl; [exact HI|].
+  inversion Hms as [|? ? Hc Hr]; subst.
+  rewrite <- app_assoc. simpl. apply IH; [now apply mark_inv|now constructor|exact Hr].
+Qed.
+
+Lemma mem_rev c l : mem c (rev l) = mem c l.
+Proof.
+  unfold mem. induction l as [|x r IH]; simpl; [reflexivity|].
+  rewrite existsb_app, IH. simpl. rewrite orb_false_r. apply orb_comm.
+Qed.
+
+Lemma max0_app a b : max0 (a ++ b) = N.max (max0 a) (max0 b).
+Proof. induction a as [|x r IH]; simpl; [lia|]. rewrite IH. lia. Qed.
+
+Lemma max0_rev l : max0 (rev l) = max0 l.
+Proof. induction l as [|x r IH]; simpl; [reflexivity|]. rewrite max0_app, IH. simpl. lia. Qed.
+
+Lemma fresh_rev l c : fresh_b (rev l) c = fresh_b l c.
+Proof. unfold fresh_b. now rewrite mem_rev, max0_rev. Qed.
+
+(* Check after ANY sequence of Mark calls is the set-based definition *)
+Theorem check_fresh ms c : Forall (fun x => x < lim) (c :: ms) ->
+  check (fold_left mark ms win_init) c = fresh_b ms c.
+Proof.
+  intros H. inversion H as [|? ? Hc Hms]; subst.
+  pose proof (marks_inv ms win_init [] inv_init (Forall_nil _) Hms) as HI.
+  rewrite app_nil_r in HI.
+  rewrite (check_fresh_inv _ _ _ HI); [apply fresh_rev| |exact Hc].
+  apply Forall_rev. exact Hms.
+Qed.
+
+(* arbitrary Mark/Check programs *)
+Fixpoint ops_lt (ops : list rop) : Prop :=
+  match ops with
+  | [] => True
+  | RMark c :: r => c < lim /\ ops_lt r
+  | RCheck c :: r => c < lim /\ ops_lt r
+  end.
+
+Lemma fresh_ext A B c : max0 A = max0 B -> (forall x, mem x A = mem x B) -> fresh_b A c = fresh_b B c.
+Proof. intros H1 H2. unfold fresh_b. now rewrite H1, H2. Qed.
+
+Theorem run_ops_spec_inv ops : forall s M, Inv s M -> Forall (fun x => x < lim) M -> ops_lt ops ->
+  run_ops s ops = spec_ops M ops.
+Proof.
+  induction ops as [|[c|c] r IH]; intros s M HI HM Hl; simpl in *; [reflexivity| |].
+  - destruct Hl as [Hc Hr]. apply IH; [now apply mark_inv|now constructor|exact Hr].
+  - destruct Hl as [Hc Hr]. f_equal; [now apply check_fresh_inv|now apply IH].
+Qed.
+
+Theorem run_ops_spec ops : ops_lt ops -> run_ops win_init ops = spec_ops [] ops.
+Proof. intros H. apply run_ops_spec_inv; [exact inv_init|constructor|exact H]. Qed.
+
+(* accept histories: the transport's usage (Check; Mark only if accepted) *)
+Theorem run_accept_spec_inv cs : forall s A, Inv s A -> Forall (fun x => x < lim) A ->
+  Forall (fun x => x < lim) cs -> run_accept s cs = spec_run A cs.
+Proof.
+  induction cs as [|c r IH]; intros s A HI HA Hcs; simpl; [reflexivity|].
+  inversion Hcs as [|? ? Hc Hr]; subst.
+  unfold accept. rewrite (check_fresh_inv _ _ _ HI HA Hc).
+  destruct (fresh_b A c); f_equal.
+  - apply IH; [now apply mark_inv|now constructor|exact Hr].
+  - now apply IH.
+Qed.
+
+Theorem run_accept_spec cs : Forall (fun x => x < lim) cs ->
+  run_accept win_init cs = spec_run [] cs.
+Proof. intros H. apply run_accept_spec_inv; [exact inv_init|constructor|exact H]. Qed.
+
+(* consequences in the property's words *)
+(* (1) a counter that was accepted is never accepted again (no duplicate ever passes) *)
+Lemma spec_run_no_dup cs : forall A c, mem c A = true ->
+  Forall (fun p => fst p = c -> snd p = false) (combine cs (spec_run A cs)).
+Proof.
+  induction cs as [|x r IH]; intros A c Hm; simpl; [constructor|].
+  destruct (fresh_b A x) eqn:Hf; simpl; constructor; simpl.
+  - intros ->. unfold fresh_b in Hf. now rewrite Hm in Hf.
+  - apply IH. simpl. now rewrite Hm, orb_true_r.
+  - reflexivity.
+  - now apply IH.
+Qed.
+
+Fixpoint accepted_counters (cs : list N) (bs : list bool) : list N :=
+  match cs, bs with
+  | c :: r, true :: br => c :: accepted_counters r br
+  | _ :: r, false :: br => accepted_counters r br
+  | _, _ => []
+  end.
+
+Lemma spec_run_accepted_nodup cs : forall A, NoDup A ->
+  NoDup (rev (accepted_counters cs (spec_run A cs)) ++ A).
+Proof.
+  induction cs as [|x r IH]; intros A HA; simpl; [exact HA|].
+  destruct (fresh_b A x) eqn:Hf; simpl.
+  - rewrite <- app_assoc. simpl. apply IH. constructor; [|exact HA].
+    unfold fresh_b in Hf. apply andb_prop in Hf. destruct Hf as [Hf _].
+    intros Hin. apply negb_true_iff in Hf. unfold mem in Hf.
+    assert (existsb (N.eqb x) A = true) by (apply existsb_exists; exists x; split; [exact Hin|apply N.eqb_refl]).
+    congruence.
+  - now apply IH.
+Qed.
+
+Theorem accepted_once cs : Forall (fun x => x < lim) cs ->
+  NoDup (accepted_counters cs (run_accept win_init cs)).
+Proof.
+  intros H. rewrite run_accept_spec by exact H.
+  pose proof (spec_run_accepted_nodup cs [] (NoDup_nil _)) as HN.
+  rewrite app_nil_r in HN. apply NoDup_rev in HN. now rewrite rev_involutive in HN.
+Qed.
+
+(* the boolean freshness test says what the property says *)
+Lemma mem_In c l : mem c l = true <-> In c l.
+Proof.
+  unfold mem. rewrite existsb_exists. split.
+  - intros [x [Hin He]]. apply N.eqb_eq in He. now subst.
+  - intros Hin. exists c. split; [exact Hin|apply N.eqb_refl].
+Qed.
+
+Lemma fresh_b_iff A c : fresh_b A c = true <-> (~ In c A /\ max0 A <= c + 448).
+Proof.
+  unfold fresh_b. rewrite andb_true_iff, negb_true_iff, window_val, N.leb_le.
+  split; intros [H1 H2]; split; try exact H2.
+  - intros Hin. apply mem_In in Hin. congruence.
+  - destruct (mem c A) eqn:Hm; [|reflexivity]. apply mem_In in Hm. contradiction.
+Qed.
+
+Lemma max0_ge A x : In x A -> x <= max0 A.
+Proof. induction A as [|y r IH]; simpl; [tauto|]. intros [->|H]; [lia|]. specialize (IH H). lia. Qed.
+
+Lemma max0_in A : A <> [] -> In (max0 A) A.
+Proof.
+  induction A as [|y r IH]; [congruence|]. intros _. simpl.
+  destruct r as [|z r'].
+  - left. simpl. lia.
+  - destruct (N.max_spec y (max0 (z :: r'))) as [[_ E]|[_ E]]; rewrite E.
+    + right. apply IH. discriminate.
+    + now left.
+Qed.
